@@ -19,7 +19,7 @@ RULE = ('bounded exhaustive enumeration of source texts, each parsed by the real
         '1..len+1 constructed directly; (nesting) parenthesis/unary/call nesting to the depth bound in every statement kind; '
         '(contin) backslash runs 1..8 with the fault in every piece; (bsonly) backslash-only physical lines before every piece of '
         'a continued statement and as the last lines of the input; (linechars) FF, VT, FS, GS, RS, NEL, U+2028, U+2029 and a lone CR '
-        'inside a comment, a string literal and as white space, before and on a faulty line; (includes) every sequence of <= 4 lines over three include lines, an assignment, a comment and a blank, at top level and in a function body; (prefix) every prefix of 1..3 comment/blank/statement '
+        'inside a comment, a string literal and as white space, before and on a faulty line; (includes) every sequence of <= 4 lines over three include lines, an assignment, a comment and a blank, at top level and in a function body; (openers) unclosed-block scenarios whose opening line is continued over 1..3 fragments; (overlap) faulty lines whose faulty expression text also occurs earlier in the line; (prefix) every prefix of 1..3 comment/blank/statement '
         'lines x start line {1,7} on base texts of the other families. A case is non-trivial when the text is rejected '
         '(keywords, soup, mutants, prefix), when the line is long enough to be elided (columns, caret), when the depth '
         'exceeds 1 or the text is faulty (nesting, contin, bsonly, linechars).')
@@ -1244,6 +1244,164 @@ def fam_includes(arg):
 
 
 # ---------------------------------------------------------------------------------------------------------------------
+# (j) unclosed-block diagnostics when the opening line is a continued line
+
+OPN_PARTS = {'if': ['if cc()', '== 1', '|| vv():'], 'while': ['while aa', '< 3', '&& cc():'], 'for': ['for vx in', 'pk(1,', '2):'],
+             'function': ['function ff(aa,', 'bb,', 'cc2):']}
+OPN_WS = (' \\', '\\')
+OPN_LAYOUTS = [(1, 0, 0)] + [(f, cm, ws) for f in (2, 3) for cm in (0, 1) for ws in (0, 1)]     # (fragments, comment between, spacing)
+OPN_WRONG = {'if': 'endwhile', 'while': 'endfor', 'for': 'endif'}
+OPN_SCENARIOS = {
+    'if': ('eof', 'eof-inner', 'function-eof', 'endfunction', 'wrongcloser', 'elif1', 'elif2', 'elif2else'),
+    'while': ('eof', 'eof-inner', 'function-eof', 'endfunction', 'wrongcloser'),
+    'for': ('eof', 'eof-inner', 'function-eof', 'endfunction', 'wrongcloser'),
+    'function': ('eof', 'open-block', 'nested'),
+}
+OPN_PRE = ([], ['aa = 801', '# c'])
+
+
+def opener_lines(kind, layout):
+    frags_n, comment, ws = layout
+    parts = OPN_PARTS[kind]
+    frags = [' '.join(parts)] if frags_n == 1 else ([parts[0], parts[1] + ' ' + parts[2]] if frags_n == 2 else list(parts))
+    out = []
+    for j, frag in enumerate(frags):
+        out.append(('    ' if j else '') + frag + (OPN_WS[ws] if j < len(frags) - 1 else ''))
+        if j == 0 and comment and len(frags) > 1:
+            out.append('      # a comment between the fragments')
+    return out
+
+
+def text_openers(case):
+    kind, scen = case['opener'], case['scen']
+    opener = opener_lines(kind, OPN_LAYOUTS[case['layout']])
+    lines = list(OPN_PRE[case['pre']])
+    if kind == 'function':
+        lines += opener + {'eof': ['vv(1)'], 'open-block': ['if cc():', 'vv(1)'], 'nested': ['vv(1)', 'function hh():', 'endfunction', 'endfunction']}[scen]
+    elif scen == 'eof':
+        lines += opener + ['vv(1)']
+    elif scen == 'eof-inner':
+        lines += ['while cc():'] + opener + ['vv(1)']
+    elif scen == 'function-eof':
+        lines += ['function gg():'] + opener + ['vv(1)']
+    elif scen == 'endfunction':
+        lines += ['function gg():'] + opener + ['vv(1)', 'endfunction', 'vv(2)']
+    elif scen == 'wrongcloser':
+        lines += opener + ['vv(1)', OPN_WRONG[kind]]
+    else:
+        lines += opener + ['vv(1)', 'elif cc():', 'vv(2)']
+        if scen != 'elif1':
+            lines += ['elif vv():', 'vv(3)']
+        if scen == 'elif2else':
+            lines += ['else:', 'vv(4)']
+    return '\n'.join(lines)
+
+
+def check_openers(case, acc):
+    text = text_openers(case)
+    start = case['start']
+    lls = blocks.logical_lines(text)
+    verdict = blocks.run_blocks([(blocks.classify(ll.text), ll.start) for ll in lls])
+    if verdict.accept:
+        raise AssertionError(f'reference automaton accepts {text!r}')
+    res = run(text, start)
+    acc.evals += 1
+    detail = dict(case, text=text, reference=repr(verdict))
+    if res[0] != 'err':
+        acc.violation(detail, f'BareScriptParserError at one of the lines {sorted(start + a - 1 for a in verdict.admissible)} ({verdict.reason})', obs(res),
+                      'another exception escapes parse_script' if res[0] == 'host' else 'a block left open is accepted silently')
+        return ('bad', res[0])
+    prob = diag_problem(res[1], start, lls, verdict.admissible, None, acc)
+    if prob is not None:
+        acc.violation(detail, prob[0], prob[1], prob[2] + ' (unclosed block whose opening line is continued over several physical lines)')
+    return ('err', verdict.reason, res[1].line_number - start if isinstance(res[1].line_number, int) else None)
+
+
+def openers_cases():
+    return [(kind, scen) for kind in OPN_PARTS for scen in OPN_SCENARIOS[kind]]
+
+
+def fam_openers(items):
+    acc = Acc('openers')
+    seen = Seen(acc)
+    for kind, scen in items:
+        for layout in range(len(OPN_LAYOUTS)):
+            for pre in range(len(OPN_PRE)):
+                for start in STARTS:
+                    acc.cases += 1
+                    case = {'opener': kind, 'scen': scen, 'layout': layout, 'pre': pre, 'start': start}
+                    seen.add(check_openers(case, acc))
+                    if layout:
+                        acc.nontrivial += 1
+        if len(acc.samples) < 2:
+            acc.sample({'text': text_openers({'opener': kind, 'scen': scen, 'layout': 6, 'pre': 1}), 'expected': 'error at the first fragment of the opening line, line = joined text'})
+    return acc.result()
+
+
+# ---------------------------------------------------------------------------------------------------------------------
+# (k) fault columns when the faulty expression text also occurs earlier in the line
+
+# (statement kind, text before the fault token, fault token, text after it). The fault position is known by construction;
+# for an expression that ends where an operand is expected the fault is the character that follows the expression text.
+OVERLAPS = (
+    ('assign', 'xx = ', '=', ' ='), ('assign', 'aa = aa ', 'aa', ''), ('assign', 'aa = aa + aa ', 'aa', ' + aa'), ('assign', 'x1 = 1 ', '1', ' 1'),
+    ('assign', 'ab = ab(ab ', 'ab', ')'), ('assign', 'xx = xx ', '=', ' = xx'),
+    ('expr', 'aa ', 'aa', ''), ('expr', 'aa + aa ', 'aa', ' + aa'), ('expr', 'vv(1) ', 'vv', '(1)'), ('expr', '1 ', '1', ' 1'), ('expr', '(aa) ', '(', 'aa) (aa)'),
+    ('return', 'return return ', 'return', ''), ('return', 'return aa ', 'aa', ''), ('return', 'return 1 ', '1', ' 1'), ('return', 'return return +', '', ''),
+    ('return', 'return (return) ', '(', 'return)'),
+    ('jumpif', 'jumpif ((', ')', ' lbl'), ('jumpif', 'jumpif (if (', ')', ' lbl'), ('jumpif', 'jumpif (aa ', 'aa', ') aa'), ('jumpif', 'jumpif (lbl ', 'lbl', ') lbl'),
+    ('jumpif', 'jumpif (jumpif ', 'jumpif', ') jumpif'),
+    ('if', 'if if ', 'if', ':'), ('if', 'if aa ', 'aa', ':'), ('if', 'if 1 ', '1', ' 1:'), ('if', 'if (if) ', '(', 'if):'),
+    ('elif', 'elif elif ', 'elif', ':'), ('elif', 'elif if ', 'if', ':'), ('elif', 'elif aa ', 'aa', ' :'),
+    ('while', 'while while ', 'while', ':'), ('while', 'while aa ', 'aa', ':'), ('while', 'while 1 ', '1', ' 1 :'),
+    ('for', 'for vx in in ', 'in', ':'), ('for', 'for vx in vx ', 'vx', ':'), ('for', 'for in in in ', 'in', ':'), ('for', 'for vx, ix in ix ', 'ix', ' :'),
+)
+OVL_INDENTS = ('', '  ', '\t')
+
+
+def build_overlap(case):
+    kind, before, fault, after = OVERLAPS[case['tpl']]
+    before = OVL_INDENTS[case['indent']] + before
+    return kind, before + fault + after, len(before)
+
+
+def text_overlap(case):
+    kind, line, _ = build_overlap(case)
+    return '\n'.join(wrap(kind, line))
+
+
+def check_overlap(case, acc):
+    kind, line, idx = build_overlap(case)
+    text = '\n'.join(wrap(kind, line))
+    start = case['start']
+    res = run(text, start)
+    acc.evals += 1
+    detail = dict(case, line=line, fault_column=idx + 1)
+    if res[0] != 'err':
+        acc.violation(detail, f'BareScriptParserError at line {start + 1}, column {idx + 1}', obs(res),
+                      'another exception escapes parse_script' if res[0] == 'host' else 'a faulty line is accepted')
+        return ('bad',)
+    prob = diag_problem(res[1], start, blocks.logical_lines(text), {2}, fault_range(line, idx), acc)
+    if prob is not None:
+        acc.violation(detail, prob[0], prob[1], prob[2] + ' (the faulty expression text also occurs earlier in the line)')
+    return (kind, res[1].column_number - idx if isinstance(res[1].column_number, int) else None)
+
+
+def fam_overlap(tpls):
+    acc = Acc('overlap')
+    seen = Seen(acc)
+    for tpl in tpls:
+        for indent in range(len(OVL_INDENTS)):
+            for start in STARTS:
+                acc.cases += 1
+                acc.nontrivial += 1
+                seen.add(check_overlap({'tpl': tpl, 'indent': indent, 'start': start}, acc))
+        if len(acc.samples) < 2:
+            acc.sample({'line': build_overlap({'tpl': tpl, 'indent': 1})[1], 'fault_column': build_overlap({'tpl': tpl, 'indent': 1})[2] + 1})
+    return acc.result()
+
+
+# ---------------------------------------------------------------------------------------------------------------------
 # (f) prefix metamorphosis
 
 PREFIX_LINES = ('# c', '', 'zz = 1')
@@ -1396,6 +1554,15 @@ def families(tier):
                f'every sequence of 0..{inc_len} lines over {list(INC_LINES)} at top level and as a function body: the include entries of '
                'the model must be the include lines in order (same line repeated adjacently or with a statement/comment/blank between, '
                'plain and system form of one name)', expected=2 * sum(len(INC_LINES) ** k for k in range(inc_len + 1))),
+        Family('openers', fam_openers, split(openers_cases(), 8),
+               f'if/while/for/function opening line in {len(OPN_LAYOUTS)} layouts (1..3 physical fragments, with/without a comment line between, 2 '
+               f'backslash spacings) x unclosed scenarios (end of input, inside another open block, inside a function, at endfunction, wrong '
+               f'closer, if with 1..2 elif and else and no endif, function with an open block, nested function) x {len(OPN_PRE)} preambles x '
+               f'start lines {list(STARTS)}', expected=len(openers_cases()) * len(OPN_LAYOUTS) * len(OPN_PRE) * len(STARTS)),
+        Family('overlap', fam_overlap, split(list(range(len(OVERLAPS))), 8),
+               f'{len(OVERLAPS)} faulty lines over the 8 statement kinds whose faulty expression text also occurs earlier in the line '
+               f'(x = = =, aa = aa aa, return return return, jumpif (() lbl, if if if:, for vx in in in: ...) x {len(OVL_INDENTS)} indents x start lines '
+               f'{list(STARTS)}', expected=len(OVERLAPS) * len(OVL_INDENTS) * len(STARTS)),
         Family('prefix', fam_prefix, [(tier, cuts[i], cuts[i + 1]) for i in range(64) if cuts[i + 1] > cuts[i]],
                f'{nbases} base texts (keyword sequences <= {3 if quick else 4} lines, soup lines <= {2 if quick else 3} tokens, all mutants of '
                f'{4 if quick else 16} corpus programs, fault columns up to {140 if quick else 200}) x {len(PREFIXES)} prefixes of 1..3 lines '
@@ -1404,13 +1571,13 @@ def families(tier):
 
 
 _CHECKS = {'keywords': check_keywords, 'soup': check_soup, 'mutants': check_mutants, 'columns': check_columns, 'caret': check_caret,
-           'nesting': check_nesting, 'contin': check_contin, 'prefix': check_prefix, 'linechars': check_linechars, 'bsonly': check_bsonly, 'includes': check_includes}
+           'nesting': check_nesting, 'contin': check_contin, 'prefix': check_prefix, 'linechars': check_linechars, 'bsonly': check_bsonly, 'includes': check_includes, 'openers': check_openers, 'overlap': check_overlap}
 
 
 def replay(family, case):
     acc = Acc(family)
     case = {k: v for k, v in case.items() if k in ('idx', 'tok', 'src', 'depth', 'prog', 'mut', 'kind', 'fault', 'tail', 'f', 'len', 'col',
-                                                    'shape', 'stmt', 'variant', 'run', 'pos', 'ws', 'ind', 'cm', 'base', 'ch', 'cls', 'faulty', 'eol', 'part', 'at', 'n', 'bs', 'ctx', 'trail', 'prefix', 'start')}
+                                                    'shape', 'stmt', 'variant', 'run', 'pos', 'ws', 'ind', 'cm', 'base', 'ch', 'cls', 'faulty', 'eol', 'part', 'at', 'n', 'bs', 'ctx', 'trail', 'opener', 'scen', 'layout', 'pre', 'tpl', 'indent', 'prefix', 'start')}
     if family == 'prefix':
         check_prefix(case, acc)
     else:
